@@ -426,6 +426,36 @@ pub fn case_child(args: &Args) {
         }
         let _ = hex20;
     }
+    // audit: close every connection still open except one, then a fresh connection scrapes all three
+    // torrents (max_scrape_torrents permitting) - what is left in the swarm workers must be what
+    // the model holds
+    for i in 0..5 {
+        if i != 0 {
+            if let Some(mut c) = clients[i].take() {
+                let me = who(&c);
+                let _ = c.ws.get_ref().shutdown(std::net::Shutdown::Both);
+                drop(c);
+                std::thread::sleep(Duration::from_millis(60));
+                let got = collect(&mut clients, Duration::from_millis(60), Duration::from_millis(35));
+                let terms: Vec<String> = got.iter().map(|g| g.2.clone()).collect();
+                println!("ITEM WSysStep {} (CClose) {}", me, cq::list(&terms));
+            }
+        }
+    }
+    {
+        let c = open(port);
+        let me = who(&c);
+        println!("ITEM WSysStep {} (COpen false) []", me);
+        clients.push(Some(c));
+        let idx = clients.len() - 1;
+        for h in pool.iter() {
+            let text = format!("{{\"action\":\"scrape\",\"info_hash\":\"{}\"}}", id_str(h));
+            let _ = clients[idx].as_mut().unwrap().ws.send(Message::text(text));
+            let got = collect(&mut clients, Duration::from_millis(5000), Duration::from_millis(35));
+            let terms: Vec<String> = got.iter().map(|g| g.2.clone()).collect();
+            println!("ITEM WSysStep {} (CScrape (Some [{}])) {}", me, cq::id20(h), cq::list(&terms));
+        }
+    }
     std::process::exit(0);
 }
 
